@@ -18,8 +18,13 @@ def observed_top(page):
     return out
 
 
-def compare_sequence(res, exp, obs, where="top"):
-    """exp: [Entry]; obs: [(kind, uid, node)]. Records violations on `res`. Returns {uid: node} of matches."""
+def compare_sequence(res, exp, obs, where="top", unasserted_names=()):
+    """exp: [Entry]; obs: [(kind, uid, node)]. Records violations on `res`. Returns {uid: node} of matches.
+    `unasserted_names`: heading names (implementing definitions separated from their declaration by other commands)
+    for which neither an entry nor its absence is asserted -- the statement is ambiguous there."""
+    if unasserted_names:
+        obs = [(k, u, n) for k, u, n in obs
+               if not (k in ("function", "macro") and any(n.arg.startswith(x + "(") for x in unasserted_names))]
     exp_ids = [e.uid for e in exp]
     obs_ids = [u for _, u, _ in obs]
     matched = {}
